@@ -181,6 +181,10 @@ func (d *Decoder) decodeValue(value reflect.Value) {
 	}
 
 	val := d.decodeValueGeneral(value)
+	if d.err != nil {
+		// unsupported kind of value (map, array, struct which is not an object etc.), error is already set
+		return
+	}
 	if val != nil {
 		value.Set(reflect.ValueOf(val).Convert(value.Type()))
 		return
